@@ -268,6 +268,15 @@ class CoreDriver:
                 if x.data is not None and not x.data.transport.is_closing() and len(st) > 2 and st[2] == "all":
                     x.data.close()
                 x.ctl.close()
+        elif op == "hold":  # the client stops reading its data connection (flow control engages)
+            s = st[1]
+            x = self.sess.get(s)
+            if x is None or x.data is None:
+                ok = False
+            else:
+                x.data.transport.hold = True
+                x.data.transport.peer.set_write_buffer_limits(high=st[2] if len(st) > 2 else 4, low=1)
+                return True
         elif op == "tick":
             self.loop.advance_to(self.loop.time() + st[1] / 1000)
             net.log("Tick")
